@@ -36,6 +36,8 @@ type ipCfg[S comparable] struct {
 	// budget of block visits; Exhausted is set when it ran out (the rule must then not pass)
 	Budget    int
 	Exhausted bool
+	// StepGo: call Step for go statements too (they are never entered)
+	StepGo bool
 }
 
 type ipEdge struct{ b, p *ssa.BasicBlock }
@@ -167,7 +169,11 @@ func (cfg *ipCfg[S]) block(act *ipAct, b, pred *ssa.BasicBlock, from int, s S, e
 			a2.defers = append(append([]*ssa.Defer{}, act.defers...), x)
 			act = &a2
 		case *ssa.Go:
-			// another goroutine: not part of this path
+			// another goroutine: not part of this path (rules that care about goroutines
+			// being STARTED on the path ask to see the statement)
+			if cfg.StepGo {
+				s = cfg.Step(x, s, env, stack)
+			}
 		case *ssa.RunDefers:
 			ds := act.defers
 			i0 := i
